@@ -264,7 +264,44 @@ class Result:
                 "stdout": self.stdout[-600:], "logs": [m for _l, _n, m in self.logs][-8:]}
 
 
-def invoke(cwd, argv, today, vcs_shim=None, hook_shim=None, glob_perm=None, now=None, environ=None):
+class _WriteFault:
+    """File-system fault seam: while installed, opening the planned file for writing fails with the planned errno (disk full,
+    file made immutable, quota).  Reads, and writes to any other path, pass through."""
+
+    def __init__(self, cwd, plan):
+        import builtins
+        import io
+        self.cwd = cwd
+        self.target = os.path.realpath(os.path.join(cwd, plan["path"]))
+        self.errno = plan.get("errno", errno.ENOSPC)
+        self.fired = 0
+        self._builtins, self._io = builtins, io
+        self._orig_open = builtins.open
+        self._orig_io_open = io.open
+
+    def _wrap(self, orig):
+        def opener(file, mode="r", *a, **kw):
+            if isinstance(mode, str) and any(ch in mode for ch in "wax+") and isinstance(file, (str, bytes, os.PathLike)):
+                try:
+                    full = os.path.realpath(os.path.join(self.cwd, os.fsdecode(file)))
+                except Exception:
+                    full = None
+                if full == self.target:
+                    self.fired += 1
+                    raise OSError(self.errno, os.strerror(self.errno) + " (injected)", os.fsdecode(file))
+            return orig(file, mode, *a, **kw)
+        return opener
+
+    def install(self):
+        self._builtins.open = self._wrap(self._orig_open)
+        self._io.open = self._wrap(self._orig_io_open)
+
+    def remove(self):
+        self._builtins.open = self._orig_open
+        self._io.open = self._orig_io_open
+
+
+def invoke(cwd, argv, today, vcs_shim=None, hook_shim=None, glob_perm=None, now=None, environ=None, write_fault=None):
     """Run `bumpver <argv>` in-process with cwd as the project directory.
     environ: variables the process inherits for this one invocation (a release started from inside another tool's hook,
     a CI job that exports things)."""
@@ -310,9 +347,17 @@ def invoke(cwd, argv, today, vcs_shim=None, hook_shim=None, glob_perm=None, now=
     for k, v in (environ or {}).items():
         saved_env[k] = os.environ.get(k)
         os.environ[k] = v
+    wf = _WriteFault(cwd, write_fault) if write_fault else None
     try:
         runner = click.testing.CliRunner()
-        r = runner.invoke(bumpver.cli.cli, list(argv), catch_exceptions=True)
+        if wf is not None:
+            wf.install()
+        try:
+            r = runner.invoke(bumpver.cli.cli, list(argv), catch_exceptions=True)
+        finally:
+            if wf is not None:
+                wf.remove()
+                res.events.append({"kind": "io_fault", "path": write_fault["path"], "fired": wf.fired})
     finally:
         for k, v in saved_env.items():
             if v is None:
